@@ -66,6 +66,8 @@ type cfg struct {
 	MaxCuts  int    // -1: every segmentation
 	Oversize []byte // raw offending header (+ some body bytes) inserted after the first message; the rest of Seq follows it
 	MaxSize  uint32
+	Queue    int  // received-message queue size (0 = 16)
+	Busy     bool // the handler of the first message does not return until the reader has consumed what it can
 }
 
 func (c cfg) String() string {
@@ -80,6 +82,9 @@ func (c cfg) String() string {
 	ov := ""
 	if c.Oversize != nil {
 		ov = fmt.Sprintf(" oversize-header=%x max=%d", c.Oversize[:min(len(c.Oversize), 8)], c.MaxSize)
+	}
+	if c.Busy {
+		ov += fmt.Sprintf(" queue=%d first-handler-busy", c.Queue)
 	}
 	return fmt.Sprintf("tcp stream [%s] read-buffer=%d %s%s", strings.Join(n, ","), c.Cache, cuts, ov)
 }
@@ -117,8 +122,14 @@ func scenario(c cfg) *mcx.Scenario {
 				if maxSize == 0 {
 					maxSize = 128 * 1024
 				}
-				w := tcpw.New(tcpw.Opts{CacheSize: c.Cache, MaxMsgSize: maxSize, DisableCSM: true, QueueSize: 16,
+				q := 16
+				if c.Queue != 0 {
+					q = c.Queue
+				}
+				handlerGo := !c.Busy
+				w := tcpw.New(tcpw.Opts{CacheSize: c.Cache, MaxMsgSize: maxSize, DisableCSM: true, QueueSize: q,
 					Handler: func(_ *responsewriter.ResponseWriter[*client.Conn], r *pool.Message) {
+						vrt.WaitUntil("application handler busy", func() bool { return handlerGo })
 						b, _ := r.ReadBody()
 						handled = append(handled, sigOf(message.Message{Code: r.Code(), Token: r.Token(), Options: r.Options(), Payload: b}))
 					},
@@ -192,6 +203,10 @@ func scenario(c cfg) *mcx.Scenario {
 				w.InjectChunks(chunks...)
 				w.St.PeerClosed = true // FIN after the last byte
 				vrt.Quiesce("env: stream consumed")
+				if c.Busy {
+					handlerGo = true
+					vrt.Quiesce("env: handler released, rest consumed")
+				}
 				if fmt.Sprint(handled) != fmt.Sprint(wantHandled) {
 					kind := "messages-differ"
 					switch {
@@ -295,6 +310,20 @@ func main() {
 			scs = append(scs, scenario(cfg{Seq: []shape{b}, Cache: ca, MaxCuts: ev.Pick(r, 2, 3)}))
 			scs = append(scs, scenario(cfg{Seq: []shape{small[1], b, small[2]}, Cache: ca, MaxCuts: ev.Pick(r, 1, 2)}))
 		}
+	}
+	// (3b) a frame larger than the read buffer / connection cache with complete frames coalesced behind it, and a further read
+	for _, b := range big[:2] {
+		for _, ca := range []uint16{16, 33, 64} {
+			scs = append(scs, scenario(cfg{Seq: []shape{b, small[1], small[8], small[2]}, Cache: ca, MaxCuts: ev.Pick(r, 2, 3)}))
+		}
+	}
+	// (3c) more messages arrive than the received-message queue holds while the first handler is busy
+	var burst []shape
+	for i := 0; i < 6; i++ {
+		burst = append(burst, shape{fmt.Sprintf("GET/burst%d", i), message.Message{Code: codes.GET, Token: message.Token{0x50 + byte(i)}, Options: message.Options{opt(message.URIPath, []byte{byte('a' + i)})}}})
+	}
+	for _, q := range []int{1, 2} {
+		scs = append(scs, scenario(cfg{Seq: burst, Cache: 2048, MaxCuts: ev.Pick(r, 0, 1), Queue: q, Busy: true}))
 	}
 	// (4) oversize frames: max message size 64; a valid message, the offending header (+4 body bytes), a valid message
 	for _, ov := range [][]byte{
